@@ -103,8 +103,9 @@ type World struct {
 
 	atts []*Attempt
 
-	Gated       bool // admit gates closed until opened by the harness
-	HoldRelease bool // release gates closed until opened by the harness
+	Gated        bool // admit gates closed until opened by the harness
+	HoldRelease  bool // release gates closed until opened by the harness
+	HoldAttached bool // streams park right after attaching (lock released, proxy not yet started)
 
 	baseline map[string]bool // goroutine ids present before the world started
 }
@@ -323,15 +324,17 @@ const (
 )
 
 type half struct {
-	admitGate   chan struct{} // closed = open
-	releaseGate chan struct{}
-	admitOnce   sync.Once
-	releaseOnce sync.Once
-	atAdmit     atomic.Bool
-	attached    atomic.Bool
-	atRelease   atomic.Bool
-	released    atomic.Bool
-	returned    atomic.Bool
+	admitGate    chan struct{} // closed = open
+	releaseGate  chan struct{}
+	attachedGate chan struct{}
+	admitOnce    sync.Once
+	releaseOnce  sync.Once
+	attachedOnce sync.Once
+	atAdmit      atomic.Bool
+	attached     atomic.Bool
+	atRelease    atomic.Bool
+	released     atomic.Bool
+	returned     atomic.Bool
 }
 
 // Attempt is one Connect* call.
@@ -375,6 +378,7 @@ func (a *Attempt) hook(point, dir string) {
 	case "attached":
 		h.attached.Store(true)
 		a.W.add(Ev{Kind: EvAttached, Att: a.N, Dir: dir})
+		<-h.attachedGate
 	case "release":
 		h.atRelease.Store(true)
 		a.W.add(Ev{Kind: EvAtRelease, Att: a.N, Dir: dir})
@@ -393,7 +397,10 @@ func (w *World) Arrive(kind, key string, wr *Writer, rd *Reader) *Attempt {
 	n := len(w.atts) + 1
 	a := &Attempt{W: w, N: n, Kind: kind, Key: key, Addr: fmt.Sprintf("a%d", n), Wr: wr, Rd: rd, halves: map[string]*half{}, done: make(chan struct{})}
 	for _, d := range a.Dirs() {
-		h := &half{admitGate: make(chan struct{}), releaseGate: make(chan struct{})}
+		h := &half{admitGate: make(chan struct{}), releaseGate: make(chan struct{}), attachedGate: make(chan struct{})}
+		if !w.HoldAttached {
+			h.attachedOnce.Do(func() { close(h.attachedGate) })
+		}
 		if !w.Gated {
 			h.admitOnce.Do(func() { close(h.admitGate) })
 		}
@@ -518,7 +525,14 @@ func (a *Attempt) OpenGates() {
 	for _, h := range a.halves {
 		h.admitOnce.Do(func() { close(h.admitGate) })
 		h.releaseOnce.Do(func() { close(h.releaseGate) })
+		h.attachedOnce.Do(func() { close(h.attachedGate) })
 	}
+}
+
+// PassAttached lets a half that is parked right after attaching go on.
+func (a *Attempt) PassAttached(dir string) {
+	h := a.halves[dir]
+	h.attachedOnce.Do(func() { close(h.attachedGate) })
 }
 
 // WaitDone waits for the Connect* call to return.
